@@ -1,95 +1,239 @@
 #[cfg(kani)]
 mod verif_b {
-    //! B — the two `SessionBuilder` start functions that can be driven without ever forming a
-    //! `Result<SessionBuilder, _>` value (Kani 0.68 crashes on that type's niche-encoded discriminant, see
-    //! probes/attempted/README.md): players are registered by writing the builder's registry directly,
-    //! which is what `add_player` does after its validation.
+    //! B — `SessionBuilder` (C16, C13): accepted configurations == documented ones, every rejection is
+    //! InvalidRequest at the documented call. Call sequences are fixed per harness; handles, player
+    //! types, counts and settings are symbolic.
     use super::*;
+    use crate::SessionState;
     use crate::verif_common::{stub_format, stub_millis, CfgRL, NullSocket};
 
-    /// start_synctest_session is accepted iff check_distance < max_prediction_window and sparse saving
-    /// is off (C13: invalid configurations must be rejected with InvalidRequest); an accepted session
-    /// reports the configured values.
+    fn any_type() -> (PlayerType<u8>, u8) {
+        let k: u8 = kani::any();
+        kani::assume(k < 3);
+        let a: u8 = kani::any();
+        kani::assume(a >= 8 && a <= 9);
+        (match k { 0 => PlayerType::Local, 1 => PlayerType::Remote(a), _ => PlayerType::Spectator(a) }, k)
+    }
+
+    /// add_player: accepted iff the handle is free and in range for its type (players < num_players,
+    /// spectators >= num_players); with_num_players re-validates what is already registered.
     #[kani::proof]
-    #[kani::unwind(10)]
+    #[kani::unwind(8)]
     #[kani::stub(alloc::fmt::format, stub_format)]
-    fn b_synctest_rejection() {
-        let w: usize = kani::any();
+    fn b_add_player_validation() {
+        let n: usize = kani::any();
+        kani::assume(n <= 3);
+        let b = SessionBuilder::<CfgRL>::new();
+        let b = match b.with_num_players(n) {
+            Ok(b) => {
+                assert!(n >= 1);
+                b
+            }
+            Err(GgrsError::InvalidRequest { .. }) => {
+                assert!(n == 0, "only zero players is rejected");
+                return;
+            }
+            Err(_) => {
+                assert!(false, "documented error kind");
+                return;
+            }
+        };
+        let (t1, k1) = any_type();
+        let h1: usize = kani::any();
+        kani::assume(h1 <= 4);
+        let ok1 = if k1 == 2 { h1 >= n } else { h1 < n };
+        let b = match b.add_player(t1, h1) {
+            Ok(b) => {
+                assert!(ok1, "invalid handle accepted");
+                b
+            }
+            Err(GgrsError::InvalidRequest { .. }) => {
+                assert!(!ok1, "valid handle rejected");
+                return;
+            }
+            Err(_) => {
+                assert!(false);
+                return;
+            }
+        };
+        // a second registration of the same handle is rejected, whatever its type
+        let (t2, _) = any_type();
+        match b.add_player(t2, h1) {
+            Err(GgrsError::InvalidRequest { .. }) => {}
+            _ => assert!(false, "duplicate handle accepted"),
+        }
+        kani::cover!(k1 == 2 && h1 == n, "first spectator handle");
+        kani::cover!(k1 == 0 && h1 == n - 1, "last player handle");
+    }
+
+    /// Changing num_players after registration re-validates the registered handles.
+    #[kani::proof]
+    #[kani::unwind(8)]
+    #[kani::stub(alloc::fmt::format, stub_format)]
+    fn b_num_players_revalidates() {
+        let (t1, k1) = any_type();
+        let h1: usize = kani::any();
+        kani::assume(h1 <= 3);
+        let b = match SessionBuilder::<CfgRL>::new().add_player(t1, h1) {
+            Ok(b) => b,
+            Err(_) => return,
+        };
+        let n2: usize = kani::any();
+        kani::assume(n2 >= 1 && n2 <= 4);
+        let still_ok = if k1 == 2 { h1 >= n2 } else { h1 < n2 };
+        match b.with_num_players(n2) {
+            Ok(b) => {
+                assert!(still_ok, "registered handle became invalid but was accepted");
+                core::mem::forget(b);
+            }
+            Err(GgrsError::InvalidRequest { .. }) => assert!(!still_ok),
+            Err(_) => assert!(false),
+        }
+        kani::cover!(k1 == 2 && !still_ok, "spectator handle swallowed by a larger player count");
+    }
+
+    /// start_p2p_session: accepted iff EVERY player handle 0..num_players is registered as a local or
+    /// remote player (spectators do not count) and the desync interval is not 0; the session starts
+    /// Synchronizing iff it has any endpoint.
+    fn start_p2p(have0: bool, have1: bool, spectators: u8) {
+        rand::tape_push(5);
+        rand::tape_push(6);
+        rand::tape_push(7);
+        rand::tape_push(8);
+        let remote1: bool = kani::any();
+        let interval0: bool = kani::any();
+        let mut b = SessionBuilder::<CfgRL>::new();
+        if interval0 {
+            b = b.with_desync_detection_mode(DesyncDetection::On { interval: 0 });
+        }
+        if have0 {
+            b = b.add_player(PlayerType::Local, 0).unwrap_or_else(|_| SessionBuilder::new());
+        }
+        if have1 {
+            let t = if remote1 { PlayerType::Remote(9) } else { PlayerType::Local };
+            b = b.add_player(t, 1).unwrap_or_else(|_| SessionBuilder::new());
+        }
+        if spectators >= 1 {
+            b = b.add_player(PlayerType::Spectator(7), 2).unwrap_or_else(|_| SessionBuilder::new());
+        }
+        if spectators >= 2 {
+            b = b.add_player(PlayerType::Spectator(6), 3).unwrap_or_else(|_| SessionBuilder::new());
+        }
+        match b.start_p2p_session(NullSocket) {
+            Ok(s) => {
+                assert!(have0 && have1 && !interval0, "incomplete or invalid configuration accepted");
+                let endpoints = (have1 && remote1) || spectators >= 1;
+                assert!((s.current_state() == SessionState::Synchronizing) == endpoints);
+                assert!(s.num_players() == 2 && s.num_spectators() == spectators as usize);
+                core::mem::forget(s);
+            }
+            Err(GgrsError::InvalidRequest { .. }) => assert!(!(have0 && have1) || interval0, "valid configuration rejected"),
+            Err(_) => assert!(false, "documented error kind"),
+        }
+        kani::cover!(!interval0, "desync interval valid");
+        kani::cover!(interval0, "desync interval 0");
+    }
+
+    macro_rules! start_p2p_case {
+        ($name:ident, $h0:expr, $h1:expr, $sp:expr) => {
+            /// (instance: which player handles are registered and how many spectators; player 1's type
+            /// and the desync interval are symbolic)
+            #[kani::proof]
+            #[kani::unwind(8)]
+            #[kani::stub(crate::network::protocol::millis_since_epoch, stub_millis)]
+            #[kani::stub(alloc::fmt::format, stub_format)]
+            fn $name() {
+                start_p2p($h0, $h1, $sp);
+            }
+        };
+    }
+    start_p2p_case!(b_start_p2p_complete, true, true, 0);
+    start_p2p_case!(b_start_p2p_complete_with_spectator, true, true, 1);
+    start_p2p_case!(b_start_p2p_player1_missing, true, false, 0);
+    start_p2p_case!(b_start_p2p_player1_missing_one_spectator, true, false, 1);
+    start_p2p_case!(b_start_p2p_player1_missing_two_spectators, true, false, 2);
+    start_p2p_case!(b_start_p2p_player0_missing_two_spectators, false, true, 2);
+
+    /// start_synctest_session (C13, C16) for one concrete prediction window per instance (the session allocates
+    /// window+1 save cells: a symbolic window is a symbolic-length allocation), check distance, sparse flag, input
+    /// delay and player count symbolic: accepted iff check_distance < max_prediction_window and sparse saving is
+    /// off, rejected with InvalidRequest otherwise; an accepted session reports the configured values.
+    fn synctest(w: usize) {
         let cd: usize = kani::any();
-        kani::assume(w <= 4 && cd <= 5);
+        kani::assume(cd <= w + 2);
         let sparse: bool = kani::any();
-        let b = SessionBuilder::<CfgRL>::new()
-            .with_max_prediction_window(w)
-            .with_check_distance(cd)
-            .with_sparse_saving_mode(sparse);
+        let delay: usize = kani::any();
+        kani::assume(delay <= 2);
+        let one_player: bool = kani::any();
+        let mut b = SessionBuilder::<CfgRL>::new();
+        if one_player {
+            b = b.with_num_players(1).unwrap_or_else(|_| SessionBuilder::new());
+        }
+        let b = b.with_max_prediction_window(w).with_check_distance(cd).with_sparse_saving_mode(sparse).with_input_delay(delay);
         match b.start_synctest_session() {
             Ok(s) => {
                 assert!(cd < w && !sparse, "C13: invalid sync-test configuration accepted");
-                assert!(s.check_distance() == cd && s.max_prediction() == w && s.num_players() == 2);
+                assert!(s.check_distance() == cd && s.max_prediction() == w, "configured values reported");
+                assert!(s.num_players() == if one_player { 1 } else { 2 });
                 core::mem::forget(s);
             }
             Err(GgrsError::InvalidRequest { .. }) => assert!(cd >= w || sparse, "C13: valid configuration rejected"),
             Err(_) => assert!(false, "documented error kind"),
         }
         kani::cover!(cd == w && !sparse, "check distance equal to the window");
-        kani::cover!(cd + 1 == w && !sparse, "largest valid check distance");
+        kani::cover!(w == 0 || (cd + 1 == w && !sparse), "largest valid check distance");
     }
+    macro_rules! synctest_case {
+        ($name:ident, $w:expr) => {
+            /// start_synctest_session accepted iff check_distance < window and not sparse (instance: window; check
+            /// distance 0..window+2, sparse flag, input delay 0..2, 1 or 2 players symbolic)
+            #[kani::proof]
+            #[kani::unwind(10)]
+            #[kani::stub(alloc::fmt::format, stub_format)]
+            fn $name() {
+                synctest($w);
+            }
+        };
+    }
+    synctest_case!(b_synctest_w0, 0);
+    synctest_case!(b_synctest_w1, 1);
+    synctest_case!(b_synctest_w2, 2);
+    synctest_case!(b_synctest_w3, 3);
+    synctest_case!(b_synctest_w8, 8);
 
-    /// start_p2p_session with a player handle missing is rejected with InvalidRequest however many
-    /// spectators are registered (spectators never count as players), and so is a desync interval of 0.
+    /// The scalar setters reject exactly fps 0, max_frames_behind 0 or >= the spectator buffer size, catchup_speed 0
+    /// (any usize), with InvalidRequest; accepted values are stored.
     #[kani::proof]
     #[kani::unwind(10)]
-    #[kani::stub(crate::network::protocol::millis_since_epoch, stub_millis)]
     #[kani::stub(alloc::fmt::format, stub_format)]
-    fn b_start_p2p_incomplete_rejected() {
-        let mut b = SessionBuilder::<CfgRL>::new();
-        let missing: usize = if kani::any() { 0 } else { 1 };
-        b.player_reg.handles.insert(1 - missing, PlayerType::Local);
-        b.local_players = 1;
-        let spectators: u8 = kani::any();
-        kani::assume(spectators <= 2);
-        if spectators >= 1 {
-            b.player_reg.handles.insert(2, PlayerType::Spectator(7));
-        }
-        if spectators >= 2 {
-            b.player_reg.handles.insert(3, PlayerType::Spectator(6));
-        }
-        match b.start_p2p_session(NullSocket) {
-            Err(GgrsError::InvalidRequest { .. }) => {}
-            Err(_) => assert!(false, "documented error kind"),
-            Ok(s) => {
-                assert!(false, "C16: a session with a missing player was accepted");
-                core::mem::forget(s);
+    fn b_scalar_setters() {
+        let fps: usize = kani::any();
+        match SessionBuilder::<CfgRL>::new().with_fps(fps) {
+            Ok(b) => {
+                assert!(fps != 0 && b.fps == fps);
+                core::mem::forget(b);
             }
-        }
-        kani::cover!(spectators == 2, "as many handles registered as players required");
-        kani::cover!(missing == 0, "player 0 missing");
-    }
-
-    /// A complete all-local configuration is accepted, starts Running (no endpoints) and reports the
-    /// player count; with desync interval 0 it is rejected.
-    #[kani::proof]
-    #[kani::unwind(10)]
-    #[kani::stub(crate::network::protocol::millis_since_epoch, stub_millis)]
-    #[kani::stub(alloc::fmt::format, stub_format)]
-    fn b_start_p2p_all_local() {
-        let mut b = SessionBuilder::<CfgRL>::new();
-        b.player_reg.handles.insert(0, PlayerType::Local);
-        b.player_reg.handles.insert(1, PlayerType::Local);
-        b.local_players = 2;
-        let interval0: bool = kani::any();
-        if interval0 {
-            b = b.with_desync_detection_mode(DesyncDetection::On { interval: 0 });
-        }
-        match b.start_p2p_session(NullSocket) {
-            Ok(s) => {
-                assert!(!interval0);
-                assert!(s.current_state() == crate::SessionState::Running && s.num_players() == 2);
-                core::mem::forget(s);
-            }
-            Err(GgrsError::InvalidRequest { .. }) => assert!(interval0, "C16: valid configuration rejected"),
+            Err(GgrsError::InvalidRequest { .. }) => assert!(fps == 0),
             Err(_) => assert!(false),
         }
-        kani::cover!(!interval0, "accepted");
+        let mfb: usize = kani::any();
+        match SessionBuilder::<CfgRL>::new().with_max_frames_behind(mfb) {
+            Ok(b) => {
+                assert!(mfb >= 1 && mfb < SPECTATOR_BUFFER_SIZE && b.max_frames_behind == mfb);
+                core::mem::forget(b);
+            }
+            Err(GgrsError::InvalidRequest { .. }) => assert!(mfb == 0 || mfb >= SPECTATOR_BUFFER_SIZE),
+            Err(_) => assert!(false),
+        }
+        let cu: usize = kani::any();
+        match SessionBuilder::<CfgRL>::new().with_catchup_speed(cu) {
+            Ok(b) => {
+                assert!(cu != 0 && b.catchup_speed == cu);
+                core::mem::forget(b);
+            }
+            Err(GgrsError::InvalidRequest { .. }) => assert!(cu == 0),
+            Err(_) => assert!(false),
+        }
+        kani::cover!(mfb + 1 == SPECTATOR_BUFFER_SIZE, "largest accepted max_frames_behind");
     }
 }
